@@ -208,10 +208,15 @@ func (x *runner) runExpect(c expectCase) {
 			}{{"to", in.To, init.To}, {"from", in.From, init.From}} {
 				want, v := f.init, ""
 				for _, a := range t.Attrs {
-					if a.Space != "" || a.Local != f.name || a.Val == "" {
+					if a.Space != "" || a.Local != f.name {
 						continue
 					}
 					v = a.Val
+					if v == "" {
+						// the empty attribute is the encoding of the zero address
+						want = jid.JID{}
+						continue
+					}
 					j, perr := jid.Parse(v)
 					if perr != nil {
 						bad += f.name + " invalid but accepted; "
